@@ -1,12 +1,12 @@
 import RedisEmu.MWake
 /-
-  Lemmas about the multi-key wake-up accounting model (`RedisEmu.MWake`).
+  Lemmas about the multi-key mwake-up accounting model (`RedisEmu.MWake`).
 -/
 namespace RedisEmu
 
 def qlen (k : Nat) (cs : List MC) : Nat := cs.countP fun c => c.waitsOn k
 
-/-- a well-formed client: a wake-up unlinks, and is raised by one of the client's own keys -/
+/-- a well-formed client: a mwake-up unlinks, and is raised by one of the client's own keys -/
 def MC.ok (c : MC) : Prop := (c.token.isSome = true → c.queued = false) ∧ (∀ k, c.token = some k → c.keys.contains k = true)
 
 def AllOk (cs : List MC) : Prop := ∀ c ∈ cs, c.ok
@@ -26,19 +26,19 @@ theorem waits_no_token (c : MC) (k : Nat) (h : c.ok) (hw : c.waitsOn k = true) :
   | none => rfl
   | some j => have := h.1 (by simp [ht]); rw [this] at hw; exact absurd hw.1 (by simp)
 
-/-- waking on `k`: the outstanding wake-ups of `k` grow by the number of clients woken -/
+/-- waking on `k`: the outstanding mwake-ups of `k` grow by the number of clients woken -/
 theorem tokens_wake_same (k : Nat) : ∀ (n : Nat) (cs : List MC), AllOk cs →
-    tokens k (wake k n cs) = tokens k cs + min n (qlen k cs) := by
+    tokens k (mwake k n cs) = tokens k cs + min n (qlen k cs) := by
   intro n cs
   induction cs generalizing n with
-  | nil => intro _; cases n <;> simp [wake, tokens, qlen]
+  | nil => intro _; cases n <;> simp [mwake, tokens, qlen]
   | cons c r ih =>
     intro hok
     have hr : AllOk r := fun d hd => hok d (List.mem_cons_of_mem _ hd)
     cases n with
-    | zero => simp [wake]
+    | zero => simp [mwake]
     | succ n =>
-      unfold wake
+      unfold mwake
       by_cases hw : c.waitsOn k = true
       · have hn := waits_no_token c k (hok c List.mem_cons_self) hw
         simp only [hw, ↓reduceIte]
@@ -49,17 +49,17 @@ theorem tokens_wake_same (k : Nat) : ∀ (n : Nat) (cs : List MC), AllOk cs →
         simp [hw]; omega
 
 theorem tokens_wake_other (k j : Nat) (hjk : j ≠ k) : ∀ (n : Nat) (cs : List MC), AllOk cs →
-    tokens j (wake k n cs) = tokens j cs := by
+    tokens j (mwake k n cs) = tokens j cs := by
   intro n cs
   induction cs generalizing n with
-  | nil => intro _; cases n <;> simp [wake]
+  | nil => intro _; cases n <;> simp [mwake]
   | cons c r ih =>
     intro hok
     have hr : AllOk r := fun d hd => hok d (List.mem_cons_of_mem _ hd)
     cases n with
-    | zero => simp [wake]
+    | zero => simp [mwake]
     | succ n =>
-      unfold wake
+      unfold mwake
       by_cases hw : c.waitsOn k = true
       · have hn := waits_no_token c k (hok c List.mem_cons_self) hw
         simp only [hw, ↓reduceIte]
@@ -70,17 +70,17 @@ theorem tokens_wake_other (k j : Nat) (hjk : j ≠ k) : ∀ (n : Nat) (cs : List
         rw [tokens_cons, tokens_cons, ih (n + 1) hr]
 
 /-- waking only unlinks: whoever is in a queue afterwards was in it before, unchanged -/
-theorem mem_wake (k : Nat) : ∀ (n : Nat) (cs : List MC) (d : MC), d ∈ wake k n cs →
+theorem mem_wake (k : Nat) : ∀ (n : Nat) (cs : List MC) (d : MC), d ∈ mwake k n cs →
     d ∈ cs ∨ (d.queued = false ∧ d.token = some k ∧ ∃ c ∈ cs, c.waitsOn k = true ∧ d.keys = c.keys ∧ d.pending = c.pending) := by
   intro n cs
   induction cs generalizing n with
-  | nil => intro d h; cases n <;> simp [wake] at h
+  | nil => intro d h; cases n <;> simp [mwake] at h
   | cons c r ih =>
     intro d h
     cases n with
-    | zero => left; simpa [wake] using h
+    | zero => left; simpa [mwake] using h
     | succ n =>
-      unfold wake at h
+      unfold mwake at h
       by_cases hw : c.waitsOn k = true
       · simp only [hw, ↓reduceIte] at h
         rcases List.mem_cons.mp h with e | e
@@ -95,13 +95,13 @@ theorem mem_wake (k : Nat) : ∀ (n : Nat) (cs : List MC) (d : MC), d ∈ wake k
           · left; exact List.mem_cons_of_mem _ h1
           · right; exact ⟨h1, h2, c', List.mem_cons_of_mem _ hc', h3⟩
 
-theorem noPassive_wake (k j n : Nat) (cs : List MC) (h : NoPassive j cs) : NoPassive j (wake k n cs) := by
+theorem noPassive_wake (k j n : Nat) (cs : List MC) (h : NoPassive j cs) : NoPassive j (mwake k n cs) := by
   intro d hd hw
   rcases mem_wake k n cs d hd with h1 | ⟨h1, _, _⟩
   · exact h d h1 hw
   · unfold MC.waitsOn at hw; rw [h1] at hw; simp at hw
 
-theorem allOk_wake (k n : Nat) (cs : List MC) (h : AllOk cs) : AllOk (wake k n cs) := by
+theorem allOk_wake (k n : Nat) (cs : List MC) (h : AllOk cs) : AllOk (mwake k n cs) := by
   intro d hd
   rcases mem_wake k n cs d hd with h1 | ⟨h1, h2, c, hc, hw, hk, _⟩
   · exact h d h1
@@ -113,15 +113,15 @@ theorem allOk_wake (k n : Nat) (cs : List MC) (h : AllOk cs) : AllOk (wake k n c
     simp only [Bool.and_eq_true] at hw
     exact hw.2
 
-theorem qlen_wake_same (k : Nat) : ∀ (n : Nat) (cs : List MC), qlen k (wake k n cs) = qlen k cs - n := by
+theorem qlen_wake_same (k : Nat) : ∀ (n : Nat) (cs : List MC), qlen k (mwake k n cs) = qlen k cs - n := by
   intro n cs
   induction cs generalizing n with
-  | nil => cases n <;> simp [wake, qlen]
+  | nil => cases n <;> simp [mwake, qlen]
   | cons c r ih =>
     cases n with
-    | zero => simp [wake]
+    | zero => simp [mwake]
     | succ n =>
-      unfold wake
+      unfold mwake
       by_cases hw : c.waitsOn k = true
       · simp only [hw, ↓reduceIte]
         rw [qlen_cons, qlen_cons, ih n]
@@ -135,15 +135,15 @@ theorem qlen_wake_same (k : Nat) : ∀ (n : Nat) (cs : List MC), qlen k (wake k 
         rw [h0]
         simp
 
-theorem qlen_wake_le (k j : Nat) : ∀ (n : Nat) (cs : List MC), qlen j (wake k n cs) ≤ qlen j cs := by
+theorem qlen_wake_le (k j : Nat) : ∀ (n : Nat) (cs : List MC), qlen j (mwake k n cs) ≤ qlen j cs := by
   intro n cs
   induction cs generalizing n with
-  | nil => cases n <;> simp [wake]
+  | nil => cases n <;> simp [mwake]
   | cons c r ih =>
     cases n with
-    | zero => simp [wake]
+    | zero => simp [mwake]
     | succ n =>
-      unfold wake
+      unfold mwake
       by_cases hw : c.waitsOn k = true
       · simp only [hw, ↓reduceIte]
         rw [qlen_cons, qlen_cons]
@@ -163,47 +163,47 @@ theorem noPassive_of_qlen_zero (k : Nat) (cs : List MC) (h : qlen k cs = 0) : No
   have := List.countP_eq_zero.mp h c hc
   simp [hw] at this
 
-/-! ### `wakeEach` -/
+/-! ### `mwakeEach` -/
 
-theorem allOk_wakeEach : ∀ (ks : List Nat) (cs : List MC), AllOk cs → AllOk (wakeEach ks cs) := by
+theorem allOk_wakeEach : ∀ (ks : List Nat) (cs : List MC), AllOk cs → AllOk (mwakeEach ks cs) := by
   intro ks
   induction ks with
   | nil => intro cs h; exact h
   | cons k r ih => intro cs h; exact ih _ (allOk_wake k 1 cs h)
 
-theorem noPassive_wakeEach (j : Nat) : ∀ (ks : List Nat) (cs : List MC), NoPassive j cs → NoPassive j (wakeEach ks cs) := by
+theorem noPassive_wakeEach (j : Nat) : ∀ (ks : List Nat) (cs : List MC), NoPassive j cs → NoPassive j (mwakeEach ks cs) := by
   intro ks
   induction ks with
   | nil => intro cs h; exact h
   | cons k r ih => intro cs h; exact ih _ (noPassive_wake k j 1 cs h)
 
-theorem tokens_wakeEach_ge (k : Nat) : ∀ (ks : List Nat) (cs : List MC), AllOk cs → tokens k cs ≤ tokens k (wakeEach ks cs) := by
+theorem tokens_wakeEach_ge (k : Nat) : ∀ (ks : List Nat) (cs : List MC), AllOk cs → tokens k cs ≤ tokens k (mwakeEach ks cs) := by
   intro ks
   induction ks with
   | nil => intro cs _; exact Nat.le_refl _
   | cons j r ih =>
     intro cs h
-    have h1 := ih (wake j 1 cs) (allOk_wake j 1 cs h)
+    have h1 := ih (mwake j 1 cs) (allOk_wake j 1 cs h)
     by_cases e : k = j
     · subst e
       have := tokens_wake_same k 1 cs h
-      unfold wakeEach; omega
+      unfold mwakeEach; omega
     · have := tokens_wake_other j k e 1 cs h
-      unfold wakeEach; omega
+      unfold mwakeEach; omega
 
-theorem qlen_wakeEach_le (k : Nat) : ∀ (ks : List Nat) (cs : List MC), qlen k (wakeEach ks cs) ≤ qlen k cs := by
+theorem qlen_wakeEach_le (k : Nat) : ∀ (ks : List Nat) (cs : List MC), qlen k (mwakeEach ks cs) ≤ qlen k cs := by
   intro ks
   induction ks with
   | nil => intro cs; exact Nat.le_refl _
   | cons j r ih =>
     intro cs
-    have h1 := ih (wake j 1 cs)
+    have h1 := ih (mwake j 1 cs)
     have h2 := qlen_wake_le j k 1 cs
-    unfold wakeEach; omega
+    unfold mwakeEach; omega
 
-/-- a client leaving with an unused wake-up: every one of its keys gets a wake-up, or has no waiter left -/
+/-- a client leaving with an unused mwake-up: every one of its keys gets a mwake-up, or has no waiter left -/
 theorem wakeEach_serves (k : Nat) : ∀ (ks : List Nat) (cs : List MC), AllOk cs → k ∈ ks →
-    tokens k cs + 1 ≤ tokens k (wakeEach ks cs) ∨ qlen k (wakeEach ks cs) = 0 := by
+    tokens k cs + 1 ≤ tokens k (mwakeEach ks cs) ∨ qlen k (mwakeEach ks cs) = 0 := by
   intro ks
   induction ks with
   | nil => intro cs _ hk; cases hk
@@ -214,9 +214,9 @@ theorem wakeEach_serves (k : Nat) : ∀ (ks : List Nat) (cs : List MC), AllOk cs
     · subst e
       have hs := tokens_wake_same k 1 cs h
       have hq := qlen_wake_same k 1 cs
-      have hge := tokens_wakeEach_ge k r (wake k 1 cs) hok1
-      have hle := qlen_wakeEach_le k r (wake k 1 cs)
-      unfold wakeEach
+      have hge := tokens_wakeEach_ge k r (mwake k 1 cs) hok1
+      have hle := qlen_wakeEach_le k r (mwake k 1 cs)
+      unfold mwakeEach
       by_cases hz : qlen k cs = 0
       · right; omega
       · left; omega
@@ -224,9 +224,9 @@ theorem wakeEach_serves (k : Nat) : ∀ (ks : List Nat) (cs : List MC), AllOk cs
         rcases List.mem_cons.mp hk with e' | e'
         · exact absurd e' e
         · exact e'
-      have := ih (wake j 1 cs) hok1 hk'
+      have := ih (mwake j 1 cs) hok1 hk'
       have ho := tokens_wake_other j k e 1 cs h
-      unfold wakeEach
+      unfold mwakeEach
       rcases this with a | a
       · left; omega
       · right; exact a
@@ -278,5 +278,151 @@ theorem noPassive_eraseIdx (k : Nat) (cs : List MC) (i : Nat) (h : NoPassive k c
 
 theorem mem_of_getElem?' (cs : List MC) (i : Nat) (c : MC) (h : cs[i]? = some c) : c ∈ cs :=
   List.mem_of_getElem? h
+
+/-! ### the accounting invariant, step by step -/
+
+structure MFull (s : MState) : Prop where
+  inv : ∀ k, MInv s k
+  ok : AllOk s.cs
+
+theorem mfull_init : MFull {} := by
+  constructor
+  · intro k; left; simp [tokens]
+  · intro c hc; cases hc
+
+theorem decLen_le (len : Nat → Nat) (j k : Nat) : decLen len j k ≤ len k := by
+  unfold decLen; split <;> omega
+
+/-- removing a client that holds no mwake-up for `k` keeps `k`'s accounting -/
+theorem minv_erase (s : MState) (k i : Nat) (c : MC) (len' : Nat → Nat) (hc : s.cs[i]? = some c) (h : MInv s k)
+    (hl : len' k ≤ s.len k) (ht : (c.token == some k) = false) :
+    MInv { len := len', cs := s.cs.eraseIdx i } k := by
+  have he := tokens_eraseIdx k s.cs i c hc
+  rw [ht] at he
+  rcases h with a | a
+  · left; show len' k ≤ tokens k (s.cs.eraseIdx i); simp at he; omega
+  · right; exact noPassive_eraseIdx k s.cs i a
+
+
+theorem firstNonEmpty_none (len : Nat → Nat) : ∀ (ks : List Nat), firstNonEmpty len ks = none → ∀ k, ks.contains k = true → len k = 0 := by
+  intro ks
+  induction ks with
+  | nil => intro _ k hk; simp at hk
+  | cons a r ih =>
+    intro h k hk
+    unfold firstNonEmpty at h
+    split at h
+    · cases h
+    · rename_i hz
+      simp only [List.contains_cons, Bool.or_eq_true, beq_iff_eq] at hk
+      rcases hk with e | e
+      · subst e; omega
+      · exact ih h k e
+
+theorem tokens_append_one (k : Nat) (cs : List MC) (c : MC) (h : c.token = none) : tokens k (cs ++ [c]) = tokens k cs := by
+  unfold tokens; rw [List.countP_append]; simp [h]
+
+/-- the client at position i leaves holding an unused mwake-up raised by `k0`, and wakes one waiter of each of its keys -/
+theorem minv_leave_token (s : MState) (k k0 i : Nat) (c : MC) (len' : Nat → Nat) (hc : s.cs[i]? = some c)
+    (hok : AllOk s.cs) (h : MInv s k) (hl : len' k ≤ s.len k) (ht : c.token = some k0) :
+    MInv { len := len', cs := mwakeEach c.keys (s.cs.eraseIdx i) } k := by
+  have hok0 := allOk_eraseIdx s.cs i hok
+  have hmem : k0 ∈ c.keys := by
+    have := (hok c (List.mem_of_getElem? hc)).2 k0 ht
+    simpa using this
+  rcases h with a | a
+  · by_cases e : k = k0
+    · subst e
+      have he := tokens_eraseIdx k s.cs i c hc
+      simp only [ht, beq_self_eq_true, ↓reduceIte] at he
+      rcases wakeEach_serves k c.keys (s.cs.eraseIdx i) hok0 hmem with b | b
+      · left; show len' k ≤ tokens k (mwakeEach c.keys (s.cs.eraseIdx i)); omega
+      · right; exact noPassive_of_qlen_zero k _ b
+    · have he := tokens_eraseIdx k s.cs i c hc
+      have hne : (c.token == some k) = false := by rw [ht]; simp; exact fun x => e x.symm
+      rw [hne] at he
+      have hge := tokens_wakeEach_ge k c.keys (s.cs.eraseIdx i) hok0
+      left; show len' k ≤ tokens k (mwakeEach c.keys (s.cs.eraseIdx i)); simp at he; omega
+  · right; exact noPassive_wakeEach k c.keys _ (noPassive_eraseIdx k s.cs i a)
+
+/-- the client at position i, holding a mwake-up raised by `k0`, is served from `k0` itself -/
+theorem minv_served_own (s : MState) (k k0 i : Nat) (c : MC) (hc : s.cs[i]? = some c)
+    (h : MInv s k) (ht : c.token = some k0) :
+    MInv { len := decLen s.len k0, cs := s.cs.eraseIdx i } k := by
+  have he := tokens_eraseIdx k s.cs i c hc
+  rcases h with a | a
+  · left
+    show decLen s.len k0 k ≤ tokens k (s.cs.eraseIdx i)
+    by_cases e : k = k0
+    · subst e
+      simp only [ht, beq_self_eq_true, ↓reduceIte] at he
+      simp only [decLen, ↓reduceIte]; omega
+    · have hne : (c.token == some k) = false := by rw [ht]; simp; exact fun x => e x.symm
+      rw [hne] at he
+      simp only [decLen, e, ↓reduceIte]; simp at he; omega
+  · right; exact noPassive_eraseIdx k s.cs i a
+
+/-- … or from another key `j0`, and hands the mwake-up to `k0`'s next waiter (D90 repaired) -/
+theorem minv_served_other (s : MState) (k k0 j0 i : Nat) (c : MC) (hc : s.cs[i]? = some c) (hok : AllOk s.cs)
+    (h : MInv s k) (ht : c.token = some k0) (hj : j0 ≠ k0) :
+    MInv { len := decLen s.len j0, cs := mwake k0 1 (s.cs.eraseIdx i) } k := by
+  have hok0 := allOk_eraseIdx s.cs i hok
+  have he := tokens_eraseIdx k s.cs i c hc
+  rcases h with a | a
+  · by_cases e : k = k0
+    · subst e
+      simp only [ht, beq_self_eq_true, ↓reduceIte] at he
+      have hs := tokens_wake_same k 1 (s.cs.eraseIdx i) hok0
+      have hq := qlen_wake_same k 1 (s.cs.eraseIdx i)
+      by_cases hz : qlen k (s.cs.eraseIdx i) = 0
+      · right; exact noPassive_of_qlen_zero k (mwake k 1 (s.cs.eraseIdx i)) (by omega)
+      · left
+        show decLen s.len j0 k ≤ tokens k (mwake k 1 (s.cs.eraseIdx i))
+        have := decLen_le s.len j0 k
+        omega
+    · have hne : (c.token == some k) = false := by rw [ht]; simp; exact fun x => e x.symm
+      rw [hne] at he
+      have ho := tokens_wake_other k0 k e 1 (s.cs.eraseIdx i) hok0
+      left
+      show decLen s.len j0 k ≤ tokens k (mwake k0 1 (s.cs.eraseIdx i))
+      have := decLen_le s.len j0 k
+      simp at he; omega
+  · right; exact noPassive_wake k0 k 1 _ (noPassive_eraseIdx k s.cs i a)
+
+/-- the client at position i finds all its lists empty and stays (or goes back) into the queues -/
+theorem minv_stays (s : MState) (k i : Nat) (c c' : MC) (hc : s.cs[i]? = some c) (hcok : c.ok) (h : MInv s k)
+    (hk : c'.keys = c.keys) (hnone : firstNonEmpty s.len c.keys = none)
+    (ht : c'.token = c.token ∨ c'.token = none) :
+    MInv { s with cs := s.cs.set i c' } k := by
+  have hts := tokens_set k s.cs i c c' hc
+  by_cases hw : c.keys.contains k = true
+  · left
+    show s.len k ≤ tokens k (s.cs.set i c')
+    rw [firstNonEmpty_none s.len c.keys hnone k hw]; omega
+  · have hck : (c.token == some k) = false := by
+      cases hct : c.token with
+      | none => rfl
+      | some k0 =>
+        have := hcok.2 k0 hct
+        simp only [beq_eq_false_iff_ne, ne_eq, Option.some.injEq]
+        intro e; subst e; exact hw this
+    have hck' : (c'.token == some k) = false := by
+      rcases ht with e | e
+      · rw [e]; exact hck
+      · rw [e]; rfl
+    rw [hck, hck'] at hts
+    rcases h with a | a
+    · left
+      show s.len k ≤ tokens k (s.cs.set i c')
+      simp at hts; omega
+    · right
+      intro d hd hwd
+      rcases List.mem_or_eq_of_mem_set hd with e | e
+      · exact a d e hwd
+      · subst e
+        unfold MC.waitsOn at hwd
+        simp only [Bool.and_eq_true] at hwd
+        rw [hk] at hwd
+        exact absurd hwd.2 hw
 
 end RedisEmu
